@@ -572,7 +572,7 @@ def orchestrate(args):
   os.makedirs(os.path.join(VERIF, 'evidence'), exist_ok=True)
   evp = os.path.join(VERIF, 'evidence', '%s.json' % pid)
   with open(evp + '.tmp', 'w') as f:
-    json.dump(ev, f, indent=1, allow_nan=False, default=str)
+    json.dump(_finite_json(ev), f, indent=1, allow_nan=False, default=str)
   os.replace(evp + '.tmp', evp)
 
   import shutil
@@ -615,6 +615,17 @@ def orchestrate(args):
           file=sys.stderr)
     return 2
   return 0
+
+
+def _finite_json(o):
+  """Evidence files are strict JSON: non-finite floats become strings."""
+  if isinstance(o, float) and (o != o or o in (float('inf'), float('-inf'))):
+    return {'nonfinite_float': repr(o)}
+  if isinstance(o, dict):
+    return {str(k): _finite_json(v) for k, v in o.items()}
+  if isinstance(o, (list, tuple)):
+    return [_finite_json(v) for v in o]
+  return o
 
 
 def _hyp_version():
